@@ -95,10 +95,10 @@ import time
 TIERS = {
     # n_random: behaviours of the random enumerator; maxsolid/souplen/skeldiag: bounds of the exhaustive one;
     # max_bytes: corpus programs larger than this are left out (None = whole corpus)
-    "C04": {"quick": dict(n_random=600, maxsolid=0, souplen=1, esouplen=4, lsouplen=2, argslen=4, skeldiag=0, truncpct=0, max_bytes=2500),
-            "thorough": dict(n_random=8000, maxsolid=3, souplen=1, esouplen=5, lsouplen=3, argslen=5, skeldiag=1, truncpct=0, max_bytes=None)},
-    "C34": {"quick": dict(n_random=500, maxsolid=0, souplen=1, esouplen=3, lsouplen=2, argslen=3, skeldiag=0, truncpct=35, max_bytes=2500),
-            "thorough": dict(n_random=8000, maxsolid=3, souplen=1, esouplen=4, lsouplen=3, argslen=4, skeldiag=1, truncpct=35, max_bytes=None)},
+    "C04": {"quick": dict(n_random=600, maxsolid=0, souplen=1, esouplen=4, lsouplen=2, argslen=4, lamlen=7, skeldiag=0, truncpct=0, max_bytes=2500),
+            "thorough": dict(n_random=8000, maxsolid=3, souplen=1, esouplen=5, lsouplen=3, argslen=5, lamlen=9, skeldiag=1, truncpct=0, max_bytes=None)},
+    "C34": {"quick": dict(n_random=500, maxsolid=0, souplen=1, esouplen=3, lsouplen=2, argslen=3, lamlen=6, skeldiag=0, truncpct=35, max_bytes=2500),
+            "thorough": dict(n_random=8000, maxsolid=3, souplen=1, esouplen=4, lsouplen=3, argslen=4, lamlen=8, skeldiag=1, truncpct=35, max_bytes=None)},
 }
 
 
@@ -118,7 +118,7 @@ def generate(prop, tier, seed, wd):
     par = TIERS[prop][tier]
     corpus = os.path.join(wd, "corpus.ndjson")
     rows = corpus_file(corpus, par["max_bytes"])
-    env = dict(TLC_ENV, CORPUS=corpus, MAXSOLID=par["maxsolid"], SOUPLEN=par["souplen"], ESOUPLEN=par["esouplen"], LSOUPLEN=par["lsouplen"], ARGSLEN=par["argslen"], SKELDIAG=par["skeldiag"],
+    env = dict(TLC_ENV, CORPUS=corpus, MAXSOLID=par["maxsolid"], SOUPLEN=par["souplen"], ESOUPLEN=par["esouplen"], LSOUPLEN=par["lsouplen"], ARGSLEN=par["argslen"], LAMLEN=par["lamlen"], SKELDIAG=par["skeldiag"],
                TRUNCPCT=par["truncpct"], OBS=os.devnull)
     mod = os.path.join(vlib.SPEC, "props", prop + ".tla")
     res = {}
@@ -166,7 +166,7 @@ def validate(prop, wd, rows):
     empty = os.path.join(wd, "empty.ndjson")
     open(empty, "w").close()
     mod = os.path.join(vlib.SPEC, "props", prop + ".tla")
-    env = dict(TLC_ENV, CORPUS=empty, MAXSOLID=0, SOUPLEN=0, ESOUPLEN=0, LSOUPLEN=0, ARGSLEN=0, SKELDIAG=0, TRUNCPCT=0, OBS=obs_path)
+    env = dict(TLC_ENV, CORPUS=empty, MAXSOLID=0, SOUPLEN=0, ESOUPLEN=0, LSOUPLEN=0, ARGSLEN=0, LAMLEN=0, SKELDIAG=0, TRUNCPCT=0, OBS=obs_path)
     r = vlib.tlc(mod, cfg=mod[:-4] + "v.cfg", env=env, metadir=os.path.join(wd, "meta_v"), timeout=900, xmx=XMX)
     vlib.tlc_ok(r, mod + " (validation)")
     if r.distinct != len(rows):
